@@ -75,7 +75,8 @@ def gen(rng, idx, tier):
             sparse = "csc"
     elif solver in ("cg_none", "cg_jacobi", "diag") and rng.random() < 0.5:
         sparse = "csc"
-    n = int(rng.integers(2, 13)) if sparse is None else int(rng.integers(3, 31))
+    big = tier == "thorough"
+    n = int(rng.integers(2, 25 if big else 13)) if sparse is None else int(rng.integers(3, 61 if big else 31))
     knobs = dict(tol=float(rng.choice([1e-5, 1e-7, 1e-9])), restart=int(rng.choice([1, 2, 3, 7, 50])),
                  w=float(rng.choice([0.3, 0.6, 1.0])), wsor=float(rng.choice([0.8, 1.0, 1.5])),
                  smooth_steps=int(rng.choice([1, 2, 5])), cycle=str(rng.choice(["V", "W"])), verbosity=int(rng.choice([0, 0, 1, 2])),
@@ -92,7 +93,7 @@ def gen(rng, idx, tier):
     p_update = float(rng.choice([0.1, 0.25, 0.4]))
     p_fault = float(rng.choice([0.0, 0.3, 0.6])) if solver in ("chol", "auto_dense") else 0.0
     ops = []
-    for j in range(int(rng.integers(3, 16))):
+    for j in range(int(rng.integers(3, 30 if big else 16))):
         o = int(rng.integers(0, nobj))
         if j < nobj or rng.random() < p_update:
             if rng.random() < p_fault:
